@@ -102,6 +102,8 @@ def run(idx: ProgramIndex, rep: Report, tier: str):
     covariance_consumes(idx, rep)
     added_terms_masked(idx, rep, consumers)
     solution_containers(idx, rep, consumers)
+    foreign_planters(idx, rep)
+    overrides_consume_policy(idx, rep)
     rep.rule("C16-7", "the NaN entries that record which observations are missing survive every consumer: no in-place update of cached tensors, object-owned tensors or the caller's targets (storage/version domain)")
     from .common_alias import aliasing_obligations
     aliasing_obligations(idx, rep, "C16-7", sorted(consumers, key=lambda f: (f.module.name, f.qualname)), 5, "policy consumers interpreted for in-place updates")
@@ -485,3 +487,83 @@ def solution_containers(idx: ProgramIndex, rep: Report, consumers):
                             "the container is shaped like the right-hand side of the solve" if ok else
                             "the container is shaped like `%s` but the right-hand side of the solve also depends on %s: when those carry batch dimensions the labels lack (batched hyper-parameters, shared targets) the scattered solution does not fit (shape mismatch) " % (" ".join(src(shape_src).split())[:50], ", ".join(unseen)[:80]), {})
     rep.floor("C16-10", "containers of masked solves", n, 1)
+
+
+# ---- C16-11 --------------------------------------------------------------------------------------------------------
+def foreign_planters(idx: ProgramIndex, rep: Report):
+    """The reader DefaultPredictionStrategy._mean_cache(nan_policy) is keyed by the policy IN FORCE AT PREDICTION TIME and recomputes a
+    missing entry from the strategy's likelihood and prior.  Code outside the prediction-strategy classes that plants a hand-made mean cache
+    (the variational pseudo-point models, whose train/train covariance was overridden by hand and cannot be recomputed) therefore has to
+    plant it under every policy: an entry under 'ignore' only is missed under 'mask' / 'fill' and silently replaced by the recomputation."""
+    rep.rule("C16-11", "a mean cache planted from outside the prediction-strategy classes is planted under every NaN policy key ('ignore', 'mask', 'fill'): the reader's key is the policy at prediction time and its recomputation is not the planter's")
+    POL = {"ignore", "mask", "fill"}
+    D = idx.find_class("DefaultPredictionStrategy")
+    n = 0
+    for fi in sorted(idx.all_functions(), key=lambda f: (f.module.name, f.qualname)):
+        if fi.cls is not None and (fi.cls is D or fi.cls.is_subclass_of(D)):
+            continue
+        sites = [c for c in calls_in(fi.node) if isinstance(c.func, ast.Name) and c.func.id == "add_to_cache" and len(c.args) >= 3 and const_str(c.args[1]) == "mean_cache"]
+        if not sites:
+            continue
+        # group by the object planted into
+        by_obj: Dict[str, Set[str]] = {}
+        first: Dict[str, ast.Call] = {}
+        for c in sites:
+            obj = src(c.args[0])
+            first.setdefault(obj, c)
+            keys = by_obj.setdefault(obj, set())
+            k = c.args[3] if len(c.args) > 3 else None
+            if k is None:
+                keys.add("<none>")
+            elif isinstance(k, ast.Constant) and isinstance(k.value, str):
+                keys.add(k.value)
+            elif isinstance(k, ast.Name):
+                # a loop variable over a literal collection of policies
+                lit = None
+                for loop in ast.walk(fi.node):
+                    if isinstance(loop, ast.For) and isinstance(loop.target, ast.Name) and loop.target.id == k.id and isinstance(loop.iter, (ast.Tuple, ast.List, ast.Set)) \
+                            and all(isinstance(e, ast.Constant) and isinstance(e.value, str) for e in loop.iter.elts) and any(x is c for x in ast.walk(loop)):
+                        lit = {e.value for e in loop.iter.elts}
+                keys.update(lit if lit is not None else {"<%s>" % k.id})
+            else:
+                keys.add("<%s>" % " ".join(src(k).split())[:30])
+        for obj, keys in sorted(by_obj.items()):
+            n += 1
+            missing = POL - keys
+            rep.add("C16-11", "%s:%s[plants mean_cache of %s]" % (fi.module.name, fi.qualname, obj), "%s:%d" % (fi.module.relpath, first[obj].lineno), not missing,
+                    "planted under every policy key" if not missing else
+                    "the hand-made mean cache of `%s` is planted under the key(s) %s only: under observation_nan_policy(%s) the reader misses it and recomputes the cache from the strategy's likelihood, which for this model (train/train covariance overridden by hand) is a different quantity - the posterior mean then depends on the policy even without a single NaN"
+                    % (obj, ", ".join(sorted(repr(k) for k in keys)), " / ".join(repr(m) for m in sorted(missing))), {})
+            # (b) planted under 'mask' / 'fill' for targets that come from the caller: the planter then has to treat missing targets as the policy says
+            if not missing and any(p in ("targets", "target", "train_targets", "labels") for p in fi.params):
+                n += 1
+                consumes = bool(reads_policy(fi))
+                rep.add("C16-11", "%s:%s[missing targets under the planted 'mask' / 'fill' entries]" % (fi.module.name, fi.qualname), "%s:%d" % (fi.module.relpath, first[obj].lineno), consumes,
+                        "the planter consumes the policy" if consumes else
+                        "%s receives targets from its caller and plants one mean cache, computed from the labels as they are, under 'mask' and 'fill' as well: a NaN among the targets is neither masked nor filled in that cache" % fi.qualname, {})
+    rep.floor("C16-11", "mean caches planted from outside the strategy classes", n, 2)
+
+
+# ---- C16-12 --------------------------------------------------------------------------------------------------------
+def overrides_consume_policy(idx: ProgramIndex, rep: Report):
+    """A method that consumes the policy defines what its quantity means when targets are missing; an override that neither consumes the
+    policy nor delegates to the overridden method silently drops that meaning (NaN out, or all points counted)."""
+    rep.rule("C16-12", "an override of a method that consumes the NaN policy consumes it too or delegates to the overridden method")
+    D = idx.find_class("DefaultPredictionStrategy")
+    n = 0
+    for cls in sorted(idx.package_classes(), key=lambda c: (c.module.name, c.qualname)):
+        for name, m in sorted(cls.methods.items()):
+            parent = cls.lookup(name, after=cls)
+            if parent is None or not reads_policy(parent):
+                continue
+            if cls.is_subclass_of(D) and name in ("mean_cache", "_mean_cache", "exact_predictive_mean"):
+                continue  # judged by C16-4
+            n += 1
+            ok = bool(reads_policy(m)) or any("nan_policy" in p for p in m.params) or any(is_super_call(c, name) for c in calls_in(m.node)) \
+                or any(isinstance(a, ast.Attribute) and isinstance(a.value, ast.Call) and isinstance(a.value.func, ast.Name) and a.value.func.id == "super" and a.attr == name for a in ast.walk(m.node))
+            if not ok and all(isinstance(st, (ast.Raise, ast.Pass)) or (isinstance(st, ast.Expr) and isinstance(st.value, ast.Constant)) for st in m.node.body):
+                ok = True  # rejects outright
+            rep.add("C16-12", "%s:%s.%s" % (cls.module.name, cls.qualname, name), m.where, ok,
+                    "consumes the policy or delegates to %s.%s" % (parent.cls.qualname if parent.cls else "?", name) if ok else
+                    "%s.%s consumes settings.observation_nan_policy; this override computes from the raw targets without it and does not delegate: NaN out under 'mask', no error under 'fill'" % (parent.cls.qualname if parent.cls else "?", name), {})
+    rep.floor("C16-12", "overrides of policy-consuming methods", n, 3)
